@@ -258,6 +258,36 @@ fn arbitrary_driver(seed: u64, n: u64, out: &str) -> i32 {
             }
         }
     }
+    // the string WINDOW: the first text of a MakeCredential request (rp.id) reads an 8-byte length n
+    // and looks at the next n bytes.  Windows that end right after a lead byte, after the second
+    // and after the third byte of a character, for every class of lead byte and of the byte that
+    // follows the window (the restricted second bytes of E0 / ED / F0 / F4 among them): whatever
+    // lies beyond the window must not become part of the text
+    let mut front: Vec<Vec<u8>> = vec![];
+    let leads: [u8; 17] = [0xC2, 0xDF, 0xE0, 0xE1, 0xEC, 0xED, 0xEE, 0xEF, 0xF0, 0xF1, 0xF3, 0xF4, 0xF5, 0xC0, 0xC1, 0x80, 0xFF];
+    let nexts: [u8; 8] = [0x80, 0x8F, 0x90, 0x9F, 0xA0, 0xBF, 0x7F, 0xC0];
+    for win in [1usize, 4, 64] {
+        for inside in 1..=3usize {
+            // `inside` bytes of the character lie inside the window
+            if inside > win { continue; }
+            for lead in leads {
+                for next in nexts {
+                    let mut b = vec![0u8, 0, 0, 0];
+                    b.extend_from_slice(&(win as u64).to_le_bytes());
+                    b.extend(std::iter::repeat(b'a').take(win - inside));
+                    b.push(lead);
+                    b.push(next);
+                    b.extend_from_slice(&[0x80, 0x80, 0x80]);
+                    // rp.name: Some, a short plain text; everything after it absent / empty
+                    b.push(1);
+                    b.extend_from_slice(&3u64.to_le_bytes());
+                    b.extend_from_slice(b"abc");
+                    b.extend_from_slice(&[0u8; 64]);
+                    front.push(b);
+                }
+            }
+        }
+    }
     // the same maximal requests with every text made of multi-byte characters, at every alignment:
     // capacity cuts and fixed-offset slices then fall inside characters
     for sel in selectors.iter().take(7) {
@@ -279,6 +309,9 @@ fn arbitrary_driver(seed: u64, n: u64, out: &str) -> i32 {
         let at = (k * 3) % (inputs.len().max(1));
         inputs.insert(at, v);
     }
+    // the window sweep is complete in every run; the rest fills the budget
+    front.extend(inputs);
+    let inputs = front;
     let mut line = 0u64;
     for data in inputs.iter().take(n as usize) {
         for g in gens {
